@@ -449,11 +449,13 @@ class _Canon(ast.NodeTransformer):
             v = st.value if isinstance(st, ast.Return) else None
             if isinstance(v, ast.Call) and isinstance(v.func, ast.Name) and v.func.id in ('all', 'any') and len(v.args) == 1 and not v.keywords \
                     and isinstance(v.args[0], (ast.GeneratorExp, ast.ListComp)) and len(v.args[0].generators) == 1 \
-                    and not v.args[0].generators[0].ifs and U(st) not in self.stmt_set:
+                    and not v.args[0].generators[0].is_async and U(st) not in self.stmt_set:
                 g = v.args[0].generators[0]
                 is_all = v.func.id == 'all'
                 test = ast.UnaryOp(op=ast.Not(), operand=v.args[0].elt) if is_all else v.args[0].elt
                 inner = ast.If(test=test, body=[ast.Return(value=ast.Constant(value=not is_all))], orelse=[])
+                for cond in reversed(g.ifs):        # a filtered element is not tested at all: the filter guards the test
+                    inner = ast.If(test=cond, body=[inner], orelse=[])
                 loop = ast.For(target=g.target, iter=g.iter, body=[inner], orelse=[])
                 tail = ast.Return(value=ast.Constant(value=is_all))
                 _relocate(loop, st)
@@ -609,6 +611,55 @@ class _Canon(ast.NodeTransformer):
                 if not done_:
                     fu.append(st)
             out = fu
+        # S50 open-an-empty-group-then-fill:
+        #     if C: ...; X.append({.., K: [], ..}); ...      X[-1][K].append(V)
+        # ->  if C: ...; X.append({.., K: [V], ..}); ...     else: X[-1][K].append(V)
+        # when the reference decides on C (or not C) with an if/else.  V is pure, the other statements of the branch bind plain names
+        # that V does not read to pure values (so neither X nor V is touched between the two appends).
+        q50 = []
+        skip50 = False
+        for i50, st in enumerate(out):
+            if skip50:
+                skip50 = False
+                continue
+            nxt = out[i50 + 1] if i50 + 1 < len(out) else None
+            done50 = False
+            if isinstance(st, ast.If) and not st.orelse and (self.els.get(U(st.test)) or self.els.get(U(_negate(st.test)))) \
+                    and isinstance(nxt, ast.Expr) and isinstance(nxt.value, ast.Call) and isinstance(nxt.value.func, ast.Attribute) \
+                    and nxt.value.func.attr == 'append' and len(nxt.value.args) == 1 and not nxt.value.keywords and _pure(nxt.value.args[0]) \
+                    and isinstance(nxt.value.func.value, ast.Subscript) and isinstance(nxt.value.func.value.value, ast.Subscript) \
+                    and isinstance(nxt.value.func.value.value.slice, ast.UnaryOp) and U(nxt.value.func.value.value.slice) == '-1' \
+                    and isinstance(nxt.value.func.value.slice, ast.Constant):
+                xs = U(nxt.value.func.value.value.value)
+                key = nxt.value.func.value.slice.value
+                vnames = {y.id for y in ast.walk(nxt.value.args[0]) if isinstance(y, ast.Name)}
+                opens = []
+                simple = True
+                for b in st.body:
+                    if isinstance(b, ast.Expr) and isinstance(b.value, ast.Call) and isinstance(b.value.func, ast.Attribute) \
+                            and b.value.func.attr == 'append' and U(b.value.func.value) == xs and len(b.value.args) == 1 \
+                            and isinstance(b.value.args[0], ast.Dict):
+                        opens.append(b)
+                    elif isinstance(b, ast.Assign) and len(b.targets) == 1 and isinstance(b.targets[0], ast.Name) \
+                            and b.targets[0].id not in vnames and _pure(b.value) and xs not in U(b.value):
+                        pass
+                    else:
+                        simple = False
+                if simple and len(opens) == 1:
+                    d = opens[0].value.args[0]
+                    slot = [j for j, k in enumerate(d.keys) if isinstance(k, ast.Constant) and k.value == key]
+                    if len(slot) == 1 and isinstance(d.values[slot[0]], ast.List) and not d.values[slot[0]].elts \
+                            and all(_pure(v_) for v_ in d.values):
+                        import copy as _c50
+                        d.values[slot[0]] = ast.List(elts=[_c50.deepcopy(nxt.value.args[0])], ctx=ast.Load())
+                        st.orelse = [nxt]
+                        self.steps.append('S50 empty group + fill -> if/else')
+                        q50.append(self.visit_If(st))
+                        skip50 = True
+                        done50 = True
+            if not done50:
+                q50.append(st)
+        out = q50
         # S49 a generator bound to a name and consumed by the one loop that follows:
         #     g = (E for T in IT if C); for x in g: BODY   ->   for T in IT: if C: x = E; BODY
         # (the generator is lazy: E is evaluated per element right before BODY in both forms; break / continue / return in BODY mean
@@ -624,7 +675,7 @@ class _Canon(ast.NodeTransformer):
             if isinstance(st, ast.Assign) and len(st.targets) == 1 and isinstance(st.targets[0], ast.Name) and isinstance(st.value, ast.GeneratorExp) \
                     and len(st.value.generators) == 1 and not st.value.generators[0].is_async and isinstance(nxt, ast.For) and not nxt.orelse \
                     and isinstance(nxt.iter, ast.Name) and nxt.iter.id == st.targets[0].id and isinstance(nxt.target, ast.Name) \
-                    and st.targets[0].id not in self.ref_names and fn49 is not None \
+                    and U(st) not in self.stmt_set and fn49 is not None \
                     and sum(1 for y in ast.walk(fn49) if isinstance(y, ast.Name) and y.id == st.targets[0].id) == 2:
                 g = st.value.generators[0]
                 inner = [ast.Assign(targets=[ast.Name(id=nxt.target.id, ctx=ast.Store())], value=st.value.elt)] + list(nxt.body)
@@ -862,6 +913,21 @@ class _Canon(ast.NodeTransformer):
         return n
 
     def _loop_body(self, n):
+        # S22c: `if T: X; continue` + REST up to the end of the loop body  ->  `if T: X else: REST`, when the reference decides between
+        # two branches on T (or not T) with an if/else (after REST the loop body ends, which is what the `continue` did for X)
+        body = n.body
+        for i in range(len(body) - 2, -1, -1):
+            st = body[i]
+            if isinstance(st, ast.If) and not st.orelse and len(st.body) >= 2 and isinstance(st.body[-1], ast.Continue) \
+                    and (self.els.get(U(st.test)) or self.els.get(U(_negate(st.test)))) and not n.orelse:
+                st.body = st.body[:-1]
+                st.orelse = body[i + 1:]
+                n.body = body[:i] + [st]
+                if U(st.test) not in self.tests and U(_negate(st.test)) in self.tests:
+                    st.test = _negate(st.test)
+                    st.body, st.orelse = st.orelse, st.body
+                self.steps.append('S22c guard-and-continue -> if/else')
+                break
         # S22: guard-and-continue whose prefix repeats the tail of the loop body
         for _pass in (1, 2):
             if _pass == 2:
@@ -2121,6 +2187,105 @@ def inline_fresh_helpers(rel, module):
         done[key[1]] = done.get(key[1], 0) + 1
         return out or [ast.copy_location(ast.Pass(), st)]
 
+    def expand_predicate_if(st, caller_fn, caller_cls):
+        """S13q  `if [not] helper(..): A` where A leaves the block (return / raise / continue / break) and the helper is a sequence of
+        statements and guards that return True / False: the helper's statements take the place of the test, every return of the
+        value that selects A becomes A, every return of the other value becomes "go on after the if" (the rest of the helper moves
+        into the else branch of that guard).  Returns the replacing statements or None."""
+        if not isinstance(st, ast.If) or st.orelse or not st.body or not isinstance(st.body[-1], (ast.Return, ast.Raise, ast.Continue, ast.Break)):
+            return None
+        t = st.test
+        neg = False
+        while isinstance(t, ast.UnaryOp) and isinstance(t.op, ast.Not):
+            neg = not neg
+            t = t.operand
+        if not isinstance(t, ast.Call):
+            return None
+        key = match(t, caller_cls, tail=True)
+        if key is None or match(t, caller_cls) is not None:
+            return None
+        fn, body, static = tail_helpers[key]
+        b = bind(t, fn, static, key[0])
+        if b is None:
+            return None
+        if any(isinstance(x, (ast.Continue, ast.Break)) for y in st.body for x in ast.walk(y)) and \
+                any(isinstance(x, (ast.For, ast.While)) for y in body for x in ast.walk(y)):
+            return None         # A's continue / break would bind to a loop of the helper
+        trigger = not neg       # A runs when the helper returns a value whose truth is `trigger`... (if H: A -> True; if not H: A -> False)
+
+        def const_bool(r):
+            if r.value is None:
+                return False
+            if isinstance(r.value, ast.Constant) and (isinstance(r.value.value, bool) or r.value.value is None):
+                return bool(r.value.value)
+            return None
+
+        def has_return(x):
+            return any(isinstance(y, ast.Return) for y in ast.walk(x))
+
+        def build(stmts):
+            out = []
+            for i, s_ in enumerate(stmts):
+                if isinstance(s_, ast.Return):
+                    k = const_bool(s_)
+                    if k is None:
+                        return None
+                    if k == trigger:
+                        out.extend(_c.deepcopy(st.body))
+                    return out
+                if isinstance(s_, ast.If) and not s_.orelse and s_.body and isinstance(s_.body[-1], ast.Return) \
+                        and not any(has_return(y) for y in s_.body[:-1]) and not has_return(s_.test):
+                    k = const_bool(s_.body[-1])
+                    if k is None:
+                        return None
+                    pre_ = [_c.deepcopy(y) for y in s_.body[:-1]]
+                    if k == trigger:
+                        out.append(ast.If(test=_c.deepcopy(s_.test), body=pre_ + _c.deepcopy(st.body), orelse=[]))
+                        continue
+                    rest = build(stmts[i + 1:])
+                    if rest is None:
+                        return None
+                    if pre_:
+                        out.append(ast.If(test=_c.deepcopy(s_.test), body=pre_, orelse=rest))
+                    elif rest:
+                        out.append(ast.If(test=_negate(_c.deepcopy(s_.test)), body=rest, orelse=[]))
+                    return out
+                if has_return(s_):
+                    return None
+                out.append(_c.deepcopy(s_))
+            # falls off the end: returns None (false)
+            if trigger is False:
+                out.extend(_c.deepcopy(st.body))
+            return out
+        if build(body) is None:
+            return None
+        assigned_in_helper = {n.id for x in body for n in ast.walk(x) if isinstance(n, ast.Name) and isinstance(n.ctx, (ast.Store, ast.Del))}
+        caller_names = {n.id for n in ast.walk(caller_fn) if isinstance(n, ast.Name)} | {a.arg for a in caller_fn.args.args}
+        subst = {}
+        pre = []
+        for p_, a in b.items():
+            if _simple_arg(a) and p_ not in assigned_in_helper:
+                subst[p_] = a
+            else:
+                counter[0] += 1
+                nm = p_ if p_ not in caller_names else '%s_h%d' % (p_, counter[0])
+                subst[p_] = nm
+                pre.append(ast.Assign(targets=[ast.Name(id=nm, ctx=ast.Store())], value=_c.deepcopy(a)))
+        for v in sorted(assigned_in_helper):
+            if v not in subst and v in caller_names:
+                counter[0] += 1
+                subst[v] = '%s_h%d' % (v, counter[0])
+        # rename in the helper's statements first, splice the (untouched) statements of A in afterwards
+        sub = _Subst(subst)
+        new = build([sub.visit(_c.deepcopy(x)) for x in body])
+        if new is None:
+            return None
+        out = pre + new
+        for x in out:
+            _relocate(x, st)
+        done[key[1]] = done.get(key[1], 0) + 1
+        return out or [ast.copy_location(ast.Pass(), st)]
+
     def expand_expr_calls(node, caller_cls):
         """Single-expression helpers called inside larger expressions: substitute the expression."""
         class T(ast.NodeTransformer):
@@ -2151,6 +2316,8 @@ def inline_fresh_helpers(rel, module):
                 i += 1
                 continue
             rep = expand_stmt(st, caller_fn, caller_cls)
+            if rep is None:
+                rep = expand_predicate_if(st, caller_fn, caller_cls)
             if rep is not None:
                 blk[i:i + 1] = rep
                 continue          # re-examine (helpers calling helpers)
